@@ -152,7 +152,20 @@ ADDENDA = {
     'C17': ' Round 3: the whole legacy interface (every name of odl.util.ufuncs.UFUNCS) against NumPy on NaN/inf/signed zeros '
            '(concrete facts); outer with out=.',
     'C20': ' Round 3: mixed-dtype product spaces under astype; the dtype-conversion matrix of element creation.',
+    'C05': ' Round 4: stale-adjoint sequences (adjoint identity, in-place update of the data the leaves refer to, identity '
+           'again through the same expression object); ndarray/list multiplicands.',
+    'C07': ' Round 4: functionals on spaces with two axes (rn((2,2)), 2-d uniform_discr).',
+    'C10': ' Round 4: MultiplyOperator with ndarray and list multiplicands.',
+    'C15': ' Round 4: dense non-tensor-product mesh input, same-shape resampling between different node placements, '
+           'grid aliasing on spaces with a single non-degenerate axis (concrete facts).',
+    'C18': ' Round 4: pre-planned FFTW transforms (init_fftw_plan before the first call), equal-length axes with '
+           'different per-axis shift flags.',
+    'C19': ' Round 4: entry-by-entry comparison of vectorised evaluation with single evaluation for strided / reversed / '
+           'unsorted / length-1 angle arrays incl. flying-focal-spot shifts, documented output shapes, skew initial '
+           'detector axes (concrete facts).',
 }
+ADDENDA['C13'] += ' Round 4: PartialDerivative / Gradient on nodes_on_bdry grids; paddings the Laplacian refuses.'
+ADDENDA['C16'] += ' Round 4: domain with a user-defined constant weighting; mode names in capitals.'
 
 
 def main():
